@@ -66,6 +66,9 @@ func Generate(s *ast.Schema, seed int64, kind ast.Operation, cfg Config) *Op {
 	}
 	g := &gen{s: s, r: rand.New(rand.NewSource(seed)), cfg: cfg, vars: map[string]*varDef{}, feat: map[string]int{}}
 	var root *ast.Definition
+	if kind == ast.Mutation && s.Mutation == nil {
+		kind = ast.Query // the schema has no mutation root
+	}
 	switch kind {
 	case ast.Mutation:
 		root = s.Mutation
